@@ -158,5 +158,52 @@ def concrete_reject(inp):
     return {"ok": False, "detail": "Composition(p=%r) was accepted" % p, "inputs": {"p": p}}
 
 
+XHAIR = '''
+from pyvaporation.mixtures.mixture import Composition
+
+
+def below_zero_rejected(p: float) -> float:
+    """
+    pre: p < 0
+    raises: ValueError
+    post: False
+    """
+    return Composition(p=p, type="weight").p
+
+
+def above_one_rejected(p: float) -> float:
+    """
+    pre: p > 1
+    raises: ValueError
+    post: False
+    """
+    return Composition(p=p, type="molar").p
+
+
+def in_range_accepted(p: float) -> float:
+    """
+    pre: 0 <= p <= 1
+    post: _ == p
+    """
+    return Composition(p=p, type="weight").p
+
+
+def second_is_complement(p: float) -> float:
+    """
+    pre: 0 <= p <= 1
+    post: 0 <= _ <= 1
+    """
+    return Composition(p=p, type="weight").second
+'''
+
+
+def crosshair(job):
+    from .. import xhair
+    xhair.run_contracts(job, "C15", XHAIR, timeout=30)
+
+
 def jobs(tier):
-    return [("identities", "identities", {}), ("rejection", "rejection", {})]
+    js = [("identities", "identities", {}), ("rejection", "rejection", {})]
+    if tier == "thorough":
+        js.append(("crosshair", "crosshair", {}))
+    return js
